@@ -17,6 +17,9 @@ pub(crate) struct ExportRules;
 
 const DUT_RID: u32 = 0x0a00_00fe; // 10.0.0.254
 const LLGR_STALE: u32 = 0xffff_0006;
+const CONFIGURED_CLUSTER_ID: u32 = 0x0707_0707; // 7.7.7.7, when the run configures one
+const POLICY_NH: Ipv4Addr = Ipv4Addr::new(192, 0, 2, 77);
+const POLICY_MED: u32 = 55;
 
 /// Attribute description (wire-level, as a peer would send it).
 #[derive(Clone, Debug, Default)]
@@ -143,6 +146,9 @@ fn gen_aspec(rng: &mut Rng, role: Option<Role>, own_as: u32, confed: bool) -> AS
             cl.push(0x0808_0808);
         }
     }
+    if internal && rng.chance(1, 8) {
+        cl.push(CONFIGURED_CLUSTER_ID);
+    }
     if rng.chance(1, 10) {
         let loop_as = if confed && rng.coin() { CONFED_ID } else { DUT_AS };
         segs.push((2, vec![loop_as]));
@@ -178,7 +184,7 @@ impl Check for ExportRules {
         let confed = rng.chance(1, 3);
         let roles: &[u64] = if confed { &[0, 1, 2, 3, 4, 4] } else { &[0, 1, 2, 3] };
         let n_nodes = rng.range(2, 4) as usize;
-        let nodes: Vec<Json> = (0..n_nodes).map(|_| jobj! {"role" => *rng.pick(roles), "send_max" => 1u64, "addpath_rx" => false, "ext_msg" => true, "gr" => if rng.chance(1, 4) { jarr![5u64, false] } else { Json::Null }, "llgr" => if rng.chance(1, 4) { Json::from(30u64) } else { Json::Null }}).collect();
+        let nodes: Vec<Json> = (0..n_nodes).map(|_| jobj! {"role" => *rng.pick(roles), "send_max" => *rng.pick(&[1u64, 1, 1, 2, 3]), "addpath_rx" => false, "ext_msg" => true, "gr" => if rng.chance(1, 4) { jarr![5u64, false] } else { Json::Null }, "llgr" => if rng.chance(1, 4) { Json::from(30u64) } else { Json::Null }}).collect();
         let node_roles: Vec<Role> = nodes.iter().map(|n| Role::from_u(n.i("role", 0) as u64)).collect();
         let n_pfx = rng.range(2, 5);
         let n = rng.range(3, if thorough { 40 } else { 24 });
@@ -210,7 +216,18 @@ impl Check for ExportRules {
                 _ => ops.push(jarr!["wait", *rng.pick(&[100u64, 6000, 40000])]),
             }
         }
-        jobj! {"confed" => confed, "nodes" => Json::Arr(nodes), "sub" => rng.next_u64() >> 1, "ops" => Json::Arr(ops)}
+        // the route-reflector cluster id: the router id (default) or one configured on every internal neighbour
+        let cid = rng.chance(1, 3);
+        // a global export policy whose single statement matches every route and sets MED and / or the
+        // next hop (1 an address, 2 self, 3 unchanged, 4 the neighbour's address)
+        let xact = if rng.chance(1, 3) {
+            let nh = rng.below(5);
+            let med = if nh == 0 || rng.coin() { 55i64 } else { -1 };
+            jobj! {"med" => med, "nh" => nh}
+        } else {
+            Json::Null
+        };
+        jobj! {"confed" => confed, "cid" => cid, "xact" => xact, "nodes" => Json::Arr(nodes), "sub" => rng.next_u64() >> 1, "ops" => Json::Arr(ops)}
     }
 
     fn execute(&self, case: &Json, tol: &Tolerate) -> Outcome {
@@ -223,11 +240,11 @@ impl Check for ExportRules {
 
     fn info(&self) -> CheckInfo {
         CheckInfo {
-            rule: "2-4 neighbours drawn from eBGP / iBGP non-client / RR client / RS client / confed-eBGP (confederation on in a third of the runs), each both source and receiver; peer-learned and locally originated routes over 2-5 prefixes with attribute sets drawn per attribute (AS_PATH with SEQ/SET/confed segments and full 255-AS segments, MED, LOCAL_PREF, communities, ORIGINATOR_ID, CLUSTER_LIST, AIGP, unknown transitive / non-transitive attributes, next hops), deliberate AS / ORIGINATOR_ID / CLUSTER_LIST loops; sources with GR+LLGR go down so that LLGR-stale routes exist. At quiescence after every op each receiver's mirror is compared with reference_export(real Loc-RIB ranking, receiver) per the statement, and the RIB must not hold a looped route. non-trivial = some receiver's expected view was non-empty; distinct = hash of seam events".into(),
+            rule: "2-4 neighbours drawn from eBGP / iBGP non-client / RR client / RS client / confed-eBGP (confederation on in a third of the runs), each both source and receiver, a third of them add-path receivers (send-max 2-3: the first N paths allowed towards the receiver are expected, by path id); the route-reflector cluster id left at the router id or configured on every neighbour; in a third of the runs a global export policy (configured through the gRPC handlers) whose statement sets MED and / or the next hop (address, self, unchanged, neighbour's address); peer-learned and locally originated routes over 2-5 prefixes with attribute sets drawn per attribute (AS_PATH with SEQ/SET/confed segments and full 255-AS segments, MED, LOCAL_PREF, communities, ORIGINATOR_ID, CLUSTER_LIST, AIGP, unknown transitive / non-transitive attributes, next hops), deliberate AS / ORIGINATOR_ID / CLUSTER_LIST loops; sources with GR+LLGR go down so that LLGR-stale routes exist. At quiescence after every op each receiver's mirror is compared with reference_export(real Loc-RIB ranking, receiver) per the statement, and the RIB must not hold a looped route. non-trivial = some receiver's expected view was non-empty; distinct = hash of seam events".into(),
             components_real: vec!["export::{process_nlri_change, export_attrs, pre_policy_defaults, export_nexthop, rr_reflect_attrs, with_llgr_stale_community, ibgp_split_horizon_suppress, rs_isolation_suppress, is_as_loop}".into(), "PeerSession::{rx_update,run_select,handle_prefix_update,flush_tx}".into(), "packet::Attribute::{as_path_prepend, as_path_prepend_confed, as_path_strip_confed}, PeerCodec both ways".into(), "TableManager, table::Table".into()],
             components_stubbed: vec!["TCP, clock, listener loop, remote speakers".into()],
-            assumptions: vec!["the real RIB's ranking is taken as given (C02 checks it)".into(), "RS-client receivers: only the set of prefixes is judged; confed-eBGP receivers: next hop not judged; MED of locally originated routes towards eBGP not judged (statement silent)".into()],
-            bounds: "<=40 ops, <=4 neighbours, <=5 prefixes, IPv4 unicast, no add-path, no export policy (C14/C01 cover those)".into(),
+            assumptions: vec!["the real RIB's ranking is taken as given (C02 checks it)".into(), "RS-client receivers: only the set of prefixes is judged; confed-eBGP receivers: next hop not judged; MED of locally originated routes towards eBGP not judged (statement silent); with an export policy: the MED it sets is expected towards every role, its next-hop action decides the next hop ('unchanged' = the stored next hop when there is a specified one)".into()],
+            bounds: "<=40 ops, <=4 neighbours, <=5 prefixes, IPv4 unicast, one export-policy statement without conditions (C14 covers evaluation, C01 policy changes)".into(),
         }
     }
 }
@@ -296,7 +313,35 @@ async fn run(case: Json, tol: Tolerate) -> Outcome {
     if confed {
         wcfg.confed = Some((CONFED_ID, vec![DUT_AS, CONFED_PEER_AS]));
     }
+    let cluster_id: u32 = if case.get("cid").map(|b| b.as_bool()).unwrap_or(false) { CONFIGURED_CLUSTER_ID } else { DUT_RID };
+    if cluster_id != DUT_RID {
+        wcfg.cluster_id = Some(Ipv4Addr::from(cluster_id));
+    }
     let mut t = Topo::new(&wcfg, nodes, vec![Family::IPV4], 0).await;
+    let xact = case.get("xact").filter(|x| matches!(x, Json::Obj(_))).cloned();
+    let pol_med: Option<u32> = xact.as_ref().and_then(|x| if x.i("med", -1) >= 0 { Some(x.i("med", -1) as u32) } else { None });
+    let pol_nh: u64 = xact.as_ref().map(|x| x.i("nh", 0) as u64).unwrap_or(0);
+    if xact.is_some() {
+        let g = &t.w.grpc;
+        let actions = api::Actions {
+            med: pol_med.map(|m| api::MedAction { r#type: api::med_action::Type::Replace as i32, value: m as i64 }),
+            nexthop: match pol_nh {
+                1 => Some(api::NexthopAction { address: POLICY_NH.to_string(), ..Default::default() }),
+                2 => Some(api::NexthopAction { self_: true, ..Default::default() }),
+                3 => Some(api::NexthopAction { unchanged: true, ..Default::default() }),
+                4 => Some(api::NexthopAction { peer_address: true, ..Default::default() }),
+                _ => None,
+            },
+            ..Default::default()
+        };
+        g.add_statement(tonic::Request::new(api::AddStatementRequest { statement: Some(api::Statement { name: "set".into(), conditions: Some(api::Conditions { rpki_result: api::ValidationState::None as i32, ..Default::default() }), actions: Some(actions) }) })).await.expect("add_statement");
+        g.add_policy(tonic::Request::new(api::AddPolicyRequest { policy: Some(api::Policy { name: "p".into(), statements: vec![api::Statement { name: "set".into(), ..Default::default() }] }), refer_existing_statements: true })).await.expect("add_policy");
+        g.add_policy_assignment(tonic::Request::new(api::AddPolicyAssignmentRequest {
+            assignment: Some(api::PolicyAssignment { name: "global".into(), direction: api::PolicyDirection::Export as i32, policies: vec![api::Policy { name: "p".into(), statements: vec![] }], default_action: api::RouteAction::Accept as i32 }),
+        }))
+        .await
+        .expect("add_policy_assignment");
+    }
     for i in 0..n {
         t.connect(i, &PipeOpts::default(), &PipeOpts::default()).await;
     }
@@ -392,7 +437,7 @@ async fn run(case: Json, tol: Tolerate) -> Outcome {
                     fail!("inbound/originator-id-loop-installed", "op {}: {:?} from {}", opi, d.net, p.source.remote_addr);
                 }
                 let internal = matches!(p.source.role, table::PeerRole::Ibgp | table::PeerRole::IbgpRrClient);
-                if internal && attr_bin(&p.attr, packet::Attribute::CLUSTER_LIST).is_some_and(|b| b.chunks(4).any(|c| c == DUT_RID.to_be_bytes())) {
+                if internal && attr_bin(&p.attr, packet::Attribute::CLUSTER_LIST).is_some_and(|b| b.chunks(4).any(|c| c == cluster_id.to_be_bytes())) {
                     fail!("inbound/cluster-list-loop-installed", "op {}: {:?} from {}", opi, d.net, p.source.remote_addr);
                 }
             }
@@ -407,37 +452,48 @@ async fn run(case: Json, tol: Tolerate) -> Outcome {
             let recv = t.nodes[r].cfg.role;
             let raddr = t.nodes[r].cfg.addr;
             let mirror = t.mirror_canon(r);
-            let mut expected: BTreeMap<String, &table::Path> = BTreeMap::new();
-            for c in &loc {
-                let Some(best) = c.current_paths.first() else {
-                    continue;
-                };
-                let src = &best.source;
+            let send_max = t.nodes[r].cfg.send_max.max(1);
+            let allowed = |p: &table::Path| -> bool {
+                let src = &p.source;
                 let originated = src.is_local() || src.is_kernel();
                 if src.remote_addr == raddr && !originated {
-                    continue; // never back to the peer it was learned from
+                    return false; // never back to the peer it was learned from
                 }
                 let src_ibgp = !originated && matches!(src.role, table::PeerRole::Ibgp | table::PeerRole::IbgpRrClient);
                 if src_ibgp && src.role == table::PeerRole::Ibgp && recv == Role::Ibgp {
-                    continue; // non-client to non-client
+                    return false; // non-client to non-client
                 }
                 let src_rs = src.role == table::PeerRole::RsClient && !originated;
-                if src_rs != (recv == Role::RsClient) {
-                    continue; // route-server boundary
+                src_rs == (recv == Role::RsClient) // route-server boundary
+            };
+            // (prefix, path id on the wire) -> the RIB path it stands for
+            let mut expected: BTreeMap<(String, u32), &table::Path> = BTreeMap::new();
+            for c in &loc {
+                if send_max == 1 {
+                    // a plain session is told the best path, or nothing when the best may not go there
+                    if let Some(best) = c.current_paths.first() {
+                        if allowed(best) {
+                            expected.insert((format!("{:?}", c.net), 0), best);
+                        }
+                    }
+                } else {
+                    for p in c.current_paths.iter().filter(|p| allowed(p)).take(send_max) {
+                        expected.insert((format!("{:?}", c.net), p.local_path_id), p);
+                        out.hit("probe.add-path-route-expected");
+                    }
                 }
-                expected.insert(format!("{:?}", c.net), best);
             }
-            let got_keys: Vec<&String> = mirror.keys().map(|k| &k.1).collect();
+            let got_keys: Vec<(String, u32)> = mirror.keys().map(|k| (k.1.clone(), k.2)).collect();
             for k in expected.keys() {
-                if !got_keys.contains(&k) {
+                if !got_keys.contains(k) {
                     nonempty_expected = true;
-                    fail!(format!("propagation/route-not-sent/{}-receiver", recv.name()), "op {} {}: receiver {} ({}) lacks {} (best from {} role {:?})", opi, op.to_compact(), r, recv.name(), k, expected[k].source.remote_addr, expected[k].source.role);
+                    fail!(format!("propagation/route-not-sent/{}-receiver", recv.name()), "op {} {}: receiver {} ({}, send-max {}) lacks {:?} (path from {} role {:?})", opi, op.to_compact(), r, recv.name(), send_max, k, expected[k].source.remote_addr, expected[k].source.role);
                 }
             }
             for (mk, (attrs, nh)) in &mirror {
-                let Some(best) = expected.get(&mk.1) else {
-                    let why = loc.iter().find(|c| format!("{:?}", c.net) == mk.1).and_then(|c| c.current_paths.first().map(|b| (b.source.remote_addr, b.source.role)));
-                    fail!(format!("propagation/route-sent-where-not-allowed/{}-receiver", recv.name()), "op {} {}: receiver {} ({}) holds {} (RIB best from {:?})", opi, op.to_compact(), r, recv.name(), mk.1, why);
+                let Some(best) = expected.get(&(mk.1.clone(), mk.2)) else {
+                    let why = loc.iter().find(|c| format!("{:?}", c.net) == mk.1).map(|c| c.current_paths.iter().map(|b| (b.source.remote_addr, b.source.role, b.local_path_id)).collect::<Vec<_>>());
+                    fail!(format!("propagation/route-sent-where-not-allowed/{}-receiver", recv.name()), "op {} {}: receiver {} ({}, send-max {}) holds {} path id {} (RIB paths {:?})", opi, op.to_compact(), r, recv.name(), send_max, mk.1, mk.2, why);
                     continue;
                 };
                 nonempty_expected = true;
@@ -456,6 +512,60 @@ async fn run(case: Json, tol: Tolerate) -> Outcome {
                 if want_path != got_path {
                     fail!(format!("rewrite/as-path/{}-receiver", recv.name()), "op {}: {} to receiver {}: expected {:?} got {:?}", opi, mk.1, r, want_path, got_path);
                 }
+                // the next hop the statement (and, when one is configured, the export policy) asks for
+                let self_nh = bgp::Nexthop::V4(Ipv4Addr::new(10, 0, 0, 254));
+                let stored_explicit = best.nexthop.filter(|n| !n.addr().is_unspecified());
+                let default_nh = match recv {
+                    // to eBGP the next hop is self (a route the operator originated with an explicit next hop keeps it)
+                    Role::Ebgp => {
+                        if src.is_local() {
+                            stored_explicit.unwrap_or(self_nh)
+                        } else {
+                            self_nh
+                        }
+                    }
+                    // to iBGP it is untouched; self when there is none to keep
+                    _ => {
+                        if originated {
+                            if src.is_local() { stored_explicit.unwrap_or(self_nh) } else { best.nexthop.unwrap_or(self_nh) }
+                        } else {
+                            best.nexthop.unwrap_or(self_nh)
+                        }
+                    }
+                };
+                let want_nh = match pol_nh {
+                    1 => bgp::Nexthop::V4(POLICY_NH),
+                    2 => self_nh,
+                    3 => stored_explicit.unwrap_or(default_nh),
+                    4 => match raddr {
+                        IpAddr::V4(a) => bgp::Nexthop::V4(a),
+                        IpAddr::V6(a) => bgp::Nexthop::V6(a),
+                    },
+                    _ => default_nh,
+                };
+                if nh.is_some_and(|n| n.addr().is_unspecified()) {
+                    fail!(format!("rewrite/unspecified-next-hop-sent/{}-receiver", recv.name()), "op {}: {} to receiver {}: next hop {:?} (stored {:?}, policy next-hop action {})", opi, mk.1, r, nh, best.nexthop, pol_nh);
+                } else if recv != Role::Confed && *nh != Some(want_nh) {
+                    if pol_nh != 0 {
+                        fail!(format!("rewrite/export-policy-next-hop-not-applied/{}-receiver", recv.name()), "op {}: {} to receiver {}: action {} expected {:?} got {:?} (stored {:?})", opi, mk.1, r, pol_nh, want_nh, nh, best.nexthop);
+                    } else if recv == Role::Ebgp {
+                        fail!("rewrite/next-hop-not-self-to-ebgp", "op {}: {} to receiver {}: next hop {:?} expected {:?}", opi, mk.1, r, nh, want_nh);
+                    } else if !originated {
+                        fail!("rewrite/next-hop-touched-to-ibgp", "op {}: {} to receiver {}: stored {:?} sent {:?}", opi, mk.1, r, best.nexthop, nh);
+                    } else {
+                        fail!("rewrite/originated-route-next-hop-to-ibgp", "op {}: {} to receiver {}: stored {:?} sent {:?} expected {:?}", opi, mk.1, r, best.nexthop, nh, want_nh);
+                    }
+                }
+                if pol_nh != 0 {
+                    out.hit("probe.export-policy-next-hop-compared");
+                }
+                // MED: one set by the export policy is what the neighbour gets, whatever its role
+                if let Some(m) = pol_med {
+                    if attr_val(attrs, packet::Attribute::MULTI_EXIT_DESC) != Some(m) {
+                        fail!(format!("rewrite/export-policy-med-not-applied/{}-receiver", recv.name()), "op {}: {} to receiver {}: expected MED {} got {:?}", opi, mk.1, r, m, attr_val(attrs, packet::Attribute::MULTI_EXIT_DESC));
+                    }
+                    out.hit("probe.export-policy-med-compared");
+                }
                 // iBGP-only attributes and MED towards eBGP
                 if recv == Role::Ebgp {
                     for (code, name) in [(packet::Attribute::LOCAL_PREF, "local-pref"), (packet::Attribute::ORIGINATOR_ID, "originator-id"), (packet::Attribute::CLUSTER_LIST, "cluster-list"), (packet::Attribute::AIGP, "aigp")] {
@@ -463,14 +573,8 @@ async fn run(case: Json, tol: Tolerate) -> Outcome {
                             fail!(format!("rewrite/{}-sent-to-ebgp", name), "op {}: {} to receiver {}", opi, mk.1, r);
                         }
                     }
-                    if !originated && attrs.iter().any(|a| a.code() == packet::Attribute::MULTI_EXIT_DESC) {
+                    if pol_med.is_none() && !originated && attrs.iter().any(|a| a.code() == packet::Attribute::MULTI_EXIT_DESC) {
                         fail!("rewrite/received-med-sent-to-ebgp", "op {}: {} to receiver {}", opi, mk.1, r);
-                    }
-                    if *nh != Some(bgp::Nexthop::V4(Ipv4Addr::new(10, 0, 0, 254))) {
-                        let local_explicit = originated && best.nexthop.is_some_and(|n| !n.addr().is_unspecified());
-                        if !local_explicit {
-                            fail!("rewrite/next-hop-not-self-to-ebgp", "op {}: {} to receiver {}: next hop {:?}", opi, mk.1, r, nh);
-                        }
                     }
                 }
                 if internal_recv {
@@ -478,16 +582,13 @@ async fn run(case: Json, tol: Tolerate) -> Outcome {
                     if attr_val(attrs, packet::Attribute::LOCAL_PREF) != Some(want_lp) {
                         fail!("rewrite/local-pref-missing-or-changed-to-ibgp", "op {}: {} to receiver {}: expected {} got {:?}", opi, mk.1, r, want_lp, attr_val(attrs, packet::Attribute::LOCAL_PREF));
                     }
-                    if !originated && *nh != best.nexthop {
-                        fail!("rewrite/next-hop-touched-to-ibgp", "op {}: {} to receiver {}: stored {:?} sent {:?}", opi, mk.1, r, best.nexthop, nh);
-                    }
                     if src_ibgp {
                         // reflection
                         let want_oid = attr_val(src_attrs, packet::Attribute::ORIGINATOR_ID).unwrap_or(src.router_id);
                         if attr_val(attrs, packet::Attribute::ORIGINATOR_ID) != Some(want_oid) {
                             fail!("rewrite/reflected-route-without-originator-id", "op {}: {} to receiver {}: expected {:#x} got {:?}", opi, mk.1, r, want_oid, attr_val(attrs, packet::Attribute::ORIGINATOR_ID));
                         }
-                        let mut want_cl = DUT_RID.to_be_bytes().to_vec();
+                        let mut want_cl = cluster_id.to_be_bytes().to_vec();
                         want_cl.extend(attr_bin(src_attrs, packet::Attribute::CLUSTER_LIST).unwrap_or_default());
                         if attr_bin(attrs, packet::Attribute::CLUSTER_LIST) != Some(want_cl.clone()) {
                             fail!("rewrite/reflected-route-without-cluster-id", "op {}: {} to receiver {}: expected {:?} got {:?}", opi, mk.1, r, want_cl, attr_bin(attrs, packet::Attribute::CLUSTER_LIST));
